@@ -80,7 +80,8 @@ fn frame_strategy(maxlen: u16) -> impl Strategy<Value = FrameSpec> {
 }
 
 fn case_strategy(max_sched: usize) -> BoxedStrategy<C13Case> {
-    (prop_oneof![2u16..8, 2u16..45, 10u16..400], prop_oneof![0u16..4, 0u16..12])
+    // one case in 25 with the size limit of the documented receive chains' order of magnitude (1500)
+    (prop_oneof![8 => 2u16..8, 8 => 2u16..45, 8 => 10u16..400, 1 => 515u16..1600], prop_oneof![0u16..4, 0u16..12])
         .prop_flat_map(move |(max, min)| {
             // payload lengths up to max (the bound applies to payload + 2 FCS bytes)
             let mode = prop_oneof![
@@ -471,7 +472,7 @@ impl Prop for C13 {
         }
     }
     fn rule(&self) -> String {
-        "generated: 1-8 frames (payload 0..max+2 bytes; random and stuffing-heavy 0xFF/0x7E/0x3F/0xF8 runs) framed by an independent HDLC framer (flags, LSB-first, bitwise CRC-16/X.25, stuffing) with shared or separate flags after a flag-free noise preamble and >= 2 flags; min_size 0..11, max_size 2..400, checksum on/off, fix-bits on/off; modes clean / 1-2 bit flips / raw noise; every single-flip position of three base transmissions enumerated; all delivered through generated drip schedules on 1-2 page streams. Oracle: clean => exactly the payloads whose raw length is within [min,max], once, in order (both with checksum off and on); any bit stream => frames delivered with checksum on == CRC-verified subset of the frames delivered with checksum off (E3 CRC); with fix-bits each raw frame maps to itself if verified, a single-bit repair, or nothing; never a panic. Non-trivial: corruption/noise case, or size-boundary frame, or a stuffed bit next to a flag with the frame straddling work() calls; distinct = hash of the case.".into()
+        "generated: 1-8 frames (payload 0..max+2 bytes; random and stuffing-heavy 0xFF/0x7E/0x3F/0xF8 runs) framed by an independent HDLC framer (flags, LSB-first, bitwise CRC-16/X.25, stuffing) with shared or separate flags after a flag-free noise preamble and >= 2 flags; min_size 0..11, max_size 2..400 (one case in 25: 515..1600, frames of up to 1600 bytes), checksum on/off, fix-bits on/off; modes clean / 1-2 bit flips / raw noise; every single-flip position of three base transmissions enumerated; all delivered through generated drip schedules on 1-2 page streams. Oracle: clean => exactly the payloads whose raw length is within [min,max], once, in order (both with checksum off and on); any bit stream => frames delivered with checksum on == CRC-verified subset of the frames delivered with checksum off (E3 CRC); with fix-bits each raw frame maps to itself if verified, a single-bit repair, or nothing; never a panic. Non-trivial: corruption/noise case, or size-boundary frame, or a stuffed bit next to a flag with the frame straddling work() calls; distinct = hash of the case.".into()
     }
     fn assumptions(&self) -> Vec<String> {
         vec![
